@@ -148,6 +148,13 @@ class EnumRef:
         self.mod, self.qualname, self.members = mod, qualname, members
 
 
+class ReMatch:
+    """the result of a regular-expression match on a CONCRETE string (computed by the library)"""
+
+    def __init__(self, m):
+        self.m = m
+
+
 class GuardedSeq:
     """the elements a generator expression over a short concrete sequence produces when its filter is symbolic: [(condition, value), ...] in order
     (element i is present iff condition i holds).  `next(g, default)` is the first present element; anything else sees the term."""
@@ -206,6 +213,8 @@ def to_term(v: Any) -> T.Term:
         return ("frame", v.ctx())
     if isinstance(v, Each):
         return ("each", to_term(v.value))
+    if isinstance(v, ReMatch):
+        return ("rematch", v.m.group(0))
     if isinstance(v, GuardedSeq):
         return ("gseq", tuple((c, to_term(x)) for c, x in v.entries))
     if isinstance(v, GenCall):
